@@ -14,9 +14,13 @@
    _to_valid_bond_index(i, is_left=True)], on the right = _S[... is_left=False]; the tensor is multiplied by
    S^(new - LABEL) on each side where the requested entry is not None (the code skips the multiplication when the
    difference is 0; with sv b 0 = one this is the same value).
-   These definitions are tied to the code through `vapply_erase` (Proofs/MpsDenoteP.v): forgetting the values,
+   These definitions are tied to the code (a) through `vapply_erase` (Proofs/MpsDenoteP.v): forgetting the values,
    vapply_op IS apply_op of Model/MpsForm.v, which the correspondence stream of harness/c07.py replays on every
-   executed operation; the bond addresses are those of Model/MpsIndex.v (`bond_address`). *)
+   executed operation; the bond addresses are those of Model/MpsIndex.v (`bond_address`); and (b) WITH values by the
+   correspondence stream `valued` of harness/c07.py (harness/c07_valued.py, Model/MpsDenoteCheck.v): vapply_op,
+   vget_B_at and window_den are instantiated at dyadic tensors / diagonal powers of two and executed against
+   MPS.convert_form, set_B(i, get_B(i, f), f), get_B(i, form) and get_theta(i, n, formL=0, formR=1) on MPS with dyadic
+   tensors and singular values 4^k (finite, segment, infinite bc), every entry compared exactly. *)
 From TenpyV Require Import Base.Prelude Model.MpsIndex Model.MpsForm.
 Open Scope Z_scope.
 
